@@ -1,12 +1,13 @@
 """Check of property C04 (symbolic links resolve as in the kernel): proofs + the oracle stream in link-heavy mode
 (incl. filepath.EvalSymlinks) + the link-budget witness corpus."""
 from ..props import CHECKS
-from .c01 import oracle_part, fs_part, corpus_part
+from .c01 import oracle_part, fs_part, corpus_part, fs_corpus_part
 
 
 def check_C04(ctx):
     ctx.proofs()
     fs_part(ctx)
+    fs_corpus_part(ctx)
     oracle_part(ctx, "sym", "fso-sym", "MemFS resolves symbolic links differently from Linux (key %s, %d histories) and the deviation is not a listed known finding")
     corpus_part(ctx, "C04-witness.cases", "fso-c04-corpus")
 
